@@ -18,6 +18,9 @@ Half      == Cat(Lit(2), W("div"))                               \* 2 div
 Mod3      == Cat(Inc, Cat(Lit(3), W("mod")))                     \* 1 add 3 mod
 
 E12       == Cat(Seq12, W("elem"))                               \* [1, 2] elem
+P12       == Alt(Lit(1), Lit(2))                                 \* (1, 2): two stacks from one
+T2        == Alt(Inc, Cat(Lit(2), W("add")))                     \* (1 add, 2 add)
+T3        == Alt(Inc, Alt(Cat(Lit(2), W("add")), Cat(Lit(3), W("add"))))   \* (1 add, 2 add, 3 add)
 
 CoreLeaves == {Lit(1), Lit(2), Emp, W("dup"), W("drop"), W("add"), E12, W("pos")}
 
@@ -34,6 +37,8 @@ LeavesOf(f) ==
       [] f = "blocks" -> {Name("A"), Name("B"), Lit(3)}
       \* who sees which binding: operands of infix operators, branches, sub-expressions, all binding and reading A / B
       [] f = "scopes" -> {Name("A"), Name("B"), Lit(1), Lit(2)}
+      \* sub-chains that are fed several times, each time a stream of several stacks: multi-yield chunks as leaves
+      [] f = "refeed" -> {P12, T2, T3, Lit(7), Emp, W("dup"), W("drop")}
 
 UnaryOf(f) ==
     CASE f = "altor" -> {"cap", "sub?", "opt", "let1"}
@@ -44,6 +49,7 @@ UnaryOf(f) ==
       [] f = "fmt" -> {"fmt1", "fmt2", "fmts", "cap", "opt"}
       [] f = "blocks" -> {"bapply", "letFcall"}
       [] f = "scopes" -> {"letA", "letB", "scopeA", "subA", "capA"}
+      [] f = "refeed" -> {"let1", "fmt1", "opt", "star", "sub?"}
 
 BinaryOf(f) ==
     CASE f = "altor" -> {"cat", "alt", "or"}
@@ -53,6 +59,7 @@ BinaryOf(f) ==
       [] f = "fmt" -> {"cat", "alt", "fmt3"}
       [] f = "blocks" -> {"cat"}
       [] f = "scopes" -> {"cat", "eq", "alt", "or"}
+      [] f = "refeed" -> {"cat", "or"}
 
 MkUnary(u, a) ==
     CASE u = "cap"  -> Cap(a)
@@ -153,6 +160,39 @@ SingleSrc(d) ==
     CASE d <= 1 -> Lit(1)
       [] d = 2  -> Cat(Lit(2), Lit(1))
       [] d = 3  -> Cat(Lit(1), Cat(Lit(2), Lit(1)))
+
+\* `pos' of the strings that a format string yields numbers them in the order in which they are yielded;
+\* where that order is not documented (a splice that interleaves several stacks) the numbering is not either
+RECURSIVE PosFixed(_)
+RECURSIVE PosFixedParts(_, _)
+PosFixed(p) ==
+    CASE p.k \in {"emp", "lit", "str", "word", "posw", "name", "elist"} -> TRUE
+      [] p.k \in {"cat", "alt", "or", "infix"} -> PosFixed(p.a) /\ PosFixed(p.b)
+      [] p.k = "if" -> PosFixed(p.c) /\ PosFixed(p.a) /\ PosFixed(p.b)
+      [] p.k = "fmt" -> OrderFixed(p) /\ PosFixedParts(p.parts, 1)
+      [] OTHER -> PosFixed(p.a)
+PosFixedParts(parts, j) ==
+    IF j > Len(parts) THEN TRUE
+    ELSE IF "lit" \in DOMAIN parts[j] THEN PosFixedParts(parts, j + 1)
+    ELSE PosFixed(parts[j].e) /\ PosFixedParts(parts, j + 1)
+
+\* two identical stacks, one after the other
+TwinSrc(d) ==
+    CASE d <= 1 -> Alt(Lit(0), Lit(0))                  \* (0, 0)
+      [] d = 2  -> Cat(Lit(1), Alt(Lit(0), Lit(0)))     \* 1 (0, 0)
+      [] d = 3  -> Cat(Lit(2), Cat(Lit(1), Alt(Lit(0), Lit(0))))
+
+\* The outermost construct hands its input stacks to a sub-chain one at a time and takes everything that
+\* sub-chain yields for one stack before it looks at the next: what it yields for a stream of stacks is the
+\* concatenation of what it yields for each, in the order of the stream.
+RECURSIVE OneAtATime(_)
+OneAtATime(p) ==
+    CASE p.k \in {"or", "fmt", "cap", "sub", "infix", "let"} -> TRUE
+      [] p.k \in {"lit", "str", "name", "elist", "posw", "emp"} -> TRUE
+      [] p.k = "word" -> TRUE
+      [] p.k = "cat" -> OneAtATime(p.a) /\ OneAtATime(p.b)
+      [] p.k = "scope" -> OneAtATime(p.a)
+      [] OTHER -> FALSE
 
 RECURSIVE UsesBlocks(_)
 RECURSIVE UsesBlocksParts(_, _)
